@@ -7,6 +7,8 @@
  *                      data_used - the precondition of sqfs_meta_reader_read,
  *                      which computes data_used - offset unsigned and copies
  *                      that many bytes
+ *   C05.meta.seek_fits_block   at most 8192 bytes are read into m->data,
+ *                      unpacked into m->scratch and copied back
  *   C05.env.*          at most 8192 bytes are read into / unpacked into /
  *                      copied between the two 8 KiB buffers
  *   (all CBMC memory / arithmetic checks inside the function)
@@ -69,6 +71,25 @@ void harness(void)
 
 	VERIF_ASSERT(m->data_used <= sizeof(m->data) &&
 		     m->offset <= m->data_used, "C05.meta.seek_wf");
+	/* the two 8 KiB arrays are members of one object, so an overrun from
+	   one into the other is not an object-bounds violation: state it */
+	{
+		unsigned i;
+		for (i = 0; i < ENV_LOG; ++i) {
+			if (i < g_rd_n && g_rd[i].buf == (void *)m->data)
+				VERIF_ASSERT(g_rd[i].n <= sizeof(m->data),
+					     "C05.meta.seek_fits_block");
+			if (i < g_blk_n)
+				VERIF_ASSERT(g_blk[i].in == m->data &&
+					     g_blk[i].n <= sizeof(m->data) &&
+					     g_blk[i].out == m->scratch &&
+					     g_blk[i].m <= sizeof(m->scratch),
+					     "C05.meta.seek_fits_block");
+			if (i < g_cpy_n)
+				VERIF_ASSERT(g_cpy[i].n <= sizeof(m->data),
+					     "C05.meta.seek_fits_block");
+		}
+	}
 	VERIF_ASSERT(ret <= 0, "C05.meta.seek_status_domain");
 	VERIF_COVER(ret == 0 && g_blk_n == 1);
 	VERIF_COVER(ret == 0 && g_rd_n == 2 && g_blk_n == 0);
